@@ -63,6 +63,21 @@ def jobs(tier):
                        "functions": ["genc:ccBValInfoTable[%s] (extracted)" % n], "inputs": list("abcd"[:b["argc"]]),
                        "native": True, "cls": "P", "timeout": 300, "link": LINK, "strict_nobody": True, "nobody_ok": NOBODY_OK,
                        "cbmc": extra})
+    # ---- algebraic simplification: the real of_peep.c:peepBCall preserves value ----
+    PL = ["bigint.c", "of_util.c", "util.c:-Dbug=util_c_bug", "stdc.c:-D_do_assert=stdc_c_do_assert"]
+    for op in ("SIntPlus", "SIntMinus", "SIntTimes", "SIntEQ", "SIntNE", "SIntLT", "SIntLE"):
+        js.append({"name": "peep.binary." + op, "src": "peep_h.c", "entry": "h_peep_binary", "defs": ["-DPEEP_OP=FOAM_BVal_" + op],
+                   "functions": ["peepBCall", "peepBinaryBCall", "peepAdditiveOp", "peepTimesOp", "peepMakeUnaryOp", "peepMakeBinaryOp", "peepPositive", "peepFoamIsValue"],
+                   "inputs": ["x", "y", "c", "shape", "slow"], "native": True, "cls": "P",
+                   "checks": ["--no-standard-checks", "--no-malloc-may-fail"],
+                   "cbmc": ["--object-bits", "14", "--unwind", "70", "--z3", "--slice-formula"], "timeout": 900, "link": PL,
+                   "assumed": ["leaves are side-effect-free local variables holding arbitrary words", "allocator stub"]})
+    js.append({"name": "peep.unary_and_boolean", "src": "peep_h.c", "entry": "h_peep_unary",
+               "functions": ["peepBCall", "peepNegate", "peepUnaryBCall", "peepMakeBinaryOp"],
+               "inputs": ["x", "y", "shape", "slow"], "native": True, "cls": "P",
+               "checks": ["--no-standard-checks", "--no-malloc-may-fail"],
+               "cbmc": ["--object-bits", "14", "--unwind", "70"], "timeout": 900, "link": PL,
+               "assumed": ["leaves are side-effect-free local variables", "allocator stub"]})
     SPLICE = {"fint.c": {"_rename_def": {"fintEval": "fintEval__real"}}}
     NOCHK = ["--no-standard-checks", "--no-malloc-may-fail"]
     for n in list(gen.CANARY) + list(gen.CANARY_RT):
